@@ -8,6 +8,9 @@ open TTV TTV.Sexp TTV.Suite
 def kind? : Sexp → Option Kind
   | .atom "plain" => some .plain | .atom "custom" => some .custom
   | .atom "csort" => some .csort | .atom "cfilter" => some .cfilter
+  -- the real `testtools.testsuite.FixtureSuite`: a TestSuite subclass with `sort_tests` (= the documented idiom) and without
+  -- `filter_by_ids`, i.e. the model's `csort`; the token only tells the harness which class to build
+  | .atom "fixture" => some .csort
   | _ => none
 def ofKind : Kind → Sexp
   | .plain => .atom "plain" | .custom => .atom "custom" | .csort => .atom "csort" | .cfilter => .atom "cfilter"
@@ -26,13 +29,13 @@ def input? : Sexp → Option Input
   | _ => none
 
 def trace? : Sexp → Option Trace
-  | .list [a, b, c, d, e, f] => do
+  | .list [a, b, c, d, e, f, g] => do
       some { iter := ← list? nat? a, filtered := ← tree? b, filtIter := ← list? nat? c,
-             sorted := ← opt? tree? d, listed := ← list? nat? e, loaded := ← list? nat? f }
+             sorted := ← opt? tree? d, listed := ← list? nat? e, loaded := ← list? nat? f, sortFilt := ← opt? (list? nat?) g }
   | _ => none
 def ofTrace (t : Trace) : Sexp :=
   .list [ofList ofNat t.iter, ofTree t.filtered, ofList ofNat t.filtIter, ofOpt ofTree t.sorted,
-         ofList ofNat t.listed, ofList ofNat t.loaded]
+         ofList ofNat t.listed, ofList ofNat t.loaded, ofOpt (ofList ofNat) t.sortFilt]
 
 def drv : PropDrv Input Trace :=
   { decI := input?, decT := trace?, encT := ofTrace, model := model, clauses := Spec.C19.clauses }
